@@ -371,6 +371,12 @@ def subtrees_replacements(p):
 
 
 class TreeDiff(vlib.Differential):
+    def report(self, extra_search=None):
+        # smallest failing programs first: they make the most readable replays
+        self.oracle_fail.sort(key=lambda x: len(x[0]))
+        self.corr_fail.sort(key=lambda x: len(x[0]))
+        return vlib.Differential.report(self, extra_search)
+
     def shrink(self, case, fails):
         try:
             p = parse(case)
